@@ -132,9 +132,15 @@ func runC12(c C12Case) (st Stats, err error) {
 			v = vv
 			return
 		}
-		for _, pair := range [][2]any{{sub, ref}, {ref, sub}, {sub, sub2}, {sub, wrapStack(ref, c.Root.Wrap)}, {ref, wrapStack(sub, c.Root.Wrap)}} {
-			if e := pair[0].(stackage.Stack).IsEqual(pair[1]); e != nil {
-				v = violf("IsEqual", "IsEqual between aliased and native builds of one description: %v\n  tree %s", e, c.Root.Brief())
+		// reference verdict: native against native (nil unless some node carries a rejecting equality closure)
+		ref2 := buildStack(c.Root, BuildOpts{AllNative: true})
+		want := ref.IsEqual(ref2)
+		if want != nil {
+			st.Class("isequal-decided-by-a-nested-closure")
+		}
+		for i, pair := range [][2]any{{sub, ref}, {ref, sub}, {sub, sub2}, {sub, wrapStack(ref, c.Root.Wrap)}, {ref, wrapStack(sub, c.Root.Wrap)}} {
+			if e := pair[0].(stackage.Stack).IsEqual(pair[1]); (e == nil) != (want == nil) {
+				v = violf("IsEqual", "IsEqual verdict differs between aliased and native builds of one description (pair %d): %v, native/native %v\n  tree %s", i, e, want, c.Root.Brief())
 				return
 			}
 		}
@@ -271,7 +277,7 @@ func c12TreeGen(tier Tier) TreeGen {
 		RootKinds: []string{"AND", "OR", "LIST", "NOT"},
 		Leaf:      func(t *rapid.T) Val { return genPrimVal(t, true, false) },
 		Conds:     true, CondExprStack: true, CondExprCond: true,
-		Options: true, Wraps: true, NilLeaves: true, EmptyStacks: true, IndexOpts: true, Ambient: true, WideRuns: true,
+		Options: true, Wraps: true, NilLeaves: true, EmptyStacks: true, IndexOpts: true, Caps: true, FIFOOpt: true, Ambient: true, WideRuns: true, NoNestAfter: true, ReadOnlyNodes: true, EqPolicies: true,
 	}
 	if tier.Thorough {
 		g.MaxDepth, g.MaxWidth, g.Budget = 4, 5, 36
@@ -310,7 +316,7 @@ func init() {
 			"ConvertStack/ConvertCondition return the underlying instance for 13 positive forms and (zero,false) without panic for 19 negative forms. non-trivial = W wraps at least one node at depth>=1 non-natively; distinct = distinct case JSON",
 		Gen: genC12,
 		Run: runC12,
-		Floors: map[string]float64{"cond-expr-alias-without-String": 0.02, "cond-expr-alias-with-String": 0.02, "cond-expr-pointer-to-alias": 0.02, "stack-pointer-to-alias": 0.1,
+		Floors: map[string]float64{"isequal-decided-by-a-nested-closure": 0.03, "cond-expr-alias-without-String": 0.02, "cond-expr-alias-with-String": 0.02, "cond-expr-pointer-to-alias": 0.02, "stack-pointer-to-alias": 0.1,
 			"alias-inside-alias": 0.05, "cond-alias-without-String": 0.05, "converter-probes": 0.9, "cond-expr-alias-with-divergent-String": 0.01, "stack-alias-with-divergent-String": 0.05},
 		Assumptions: []string{"ConvertCondition(Condition{}) on the native zero value is not asserted (the statement lists nil, zero aliases and unrelated types)"},
 	})
